@@ -56,7 +56,8 @@ def items(ctx):
                         ent[(y, x)] = v + rng.choice([-2, -1, 1, 2])
                 sc["entries"] = [(x, y, v) for (x, y), v in ent.items()]
                 sc["asym"] = True
-        out.append({"s1": a, "s2": b, "A": A, "scoring": sc, "aslist": rng.random() < 0.3})
+        out.append({"s1": a, "s2": b, "A": A, "scoring": sc, "aslist": rng.random() < 0.3,
+                    "symbols": rng.choice(["char", "char", "tuple", "bigint", "word"])})
     for k, it in enumerate(out):
         it["id"] = "c17-%d" % k
     return out
@@ -65,7 +66,7 @@ def items(ctx):
 RULE = ("model: the recurrence with its border equals the maximum over ALL explicitly enumerated global alignments, for "
         "all sequence pairs up to length 3 (4) over a binary alphabet x substitution tables x gap scores. implementation: "
         "all pairs of sequences of length 0..3 over 2 symbols (quick: thinned) and seeded pairs up to length 6 over 3 "
-        "symbols x {default scoring, dictionary scoring with gap costs 0 / 0.5 / 1 / 1.5 / 2 / 2.5, max and min "
+        "symbols (characters, and run-time built tuples / large integers / words that are equal but never identical) x {default scoring, dictionary scoring with gap costs 0 / 0.5 / 1 / 1.5 / 2 / 2.5, max and min "
         "orientation}; recorded: value, score matrix, and the alignment for all six traceback orders and the default; "
         "TLC judges value = optimum, the score matrix cell by cell, and each alignment (equal lengths, reduces to the "
         "inputs, no gap/gap column, scores the value); non-trivial = unequal lengths or custom scoring")
